@@ -25,6 +25,7 @@ type chunk struct {
 // scriptBackend returns the scripted chunks one Read at a time and io.EOF when
 // the script is exhausted. Writes are recorded; optional write script.
 type scriptBackend struct {
+	failSize   bool // SetSize reports an error (the buffers must be resized all the same)
 	afterEnd   int // consecutive reads after the script ran out
 	script    []chunk
 	delivered int
@@ -88,6 +89,9 @@ func (b *scriptBackend) Write(p []byte) (int, error) {
 
 func (b *scriptBackend) SetSize(w, h int) error {
 	b.sizes = append(b.sizes, [2]int{w, h})
+	if b.failSize {
+		return errInjected
+	}
 	return nil
 }
 
@@ -195,6 +199,7 @@ type event struct {
 }
 
 type recFrontend struct {
+	staleCalls int // callbacks that arrived through a frontend already replaced by SetFrontend
 	term   te.Terminal
 	vt     *te.VerifTerm
 	gmode  bool
@@ -345,6 +350,73 @@ type impl struct {
 	lastRows []string
 	wrMark   int
 	evMark   int
+	live *liveFrontend // the frontend object the terminal currently holds
+}
+
+// liveFrontend is what the terminal is given: it forwards to the recorder until it has been
+// replaced through SetFrontend; a callback that still arrives afterwards is counted.
+type liveFrontend struct {
+	rec  *recFrontend
+	dead bool
+}
+
+func (l *liveFrontend) ok() bool {
+	if l.dead {
+		l.rec.staleCalls++
+		return false
+	}
+	return true
+}
+func (l *liveFrontend) Bell() {
+	if l.ok() {
+		l.rec.Bell()
+	}
+}
+func (l *liveFrontend) RegionChanged(r te.Region, cr te.ChangeReason) {
+	if l.ok() {
+		l.rec.RegionChanged(r, cr)
+	}
+}
+func (l *liveFrontend) ScrollLines(y int) {
+	if l.ok() {
+		l.rec.ScrollLines(y)
+	}
+}
+func (l *liveFrontend) CursorMoved(x, y int) {
+	if l.ok() {
+		l.rec.CursorMoved(x, y)
+	}
+}
+func (l *liveFrontend) StyleChanged(st te.Style) {
+	if l.ok() {
+		l.rec.StyleChanged(st)
+	}
+}
+func (l *liveFrontend) ViewFlagChanged(v te.ViewFlag, value bool) {
+	if l.ok() {
+		l.rec.ViewFlagChanged(v, value)
+	}
+}
+func (l *liveFrontend) ViewIntChanged(v te.ViewInt, value int) {
+	if l.ok() {
+		l.rec.ViewIntChanged(v, value)
+	}
+}
+func (l *liveFrontend) ViewStringChanged(v te.ViewString, value string) {
+	if l.ok() {
+		l.rec.ViewStringChanged(v, value)
+	}
+}
+
+// swapFrontend replaces the terminal's frontend (SetFrontend) by a new one backed by the same
+// recorder; the old one must not be called again.
+func (im *impl) swapFrontend() {
+	nf := &liveFrontend{rec: im.fe}
+	im.term.SetFrontend(nf)
+	if im.live != nil {
+		im.live.dead = true
+	}
+	im.live = nf
 }
 
 func newImpl(mode int, grid bool, w, h int) (*impl, string) {
@@ -354,8 +426,9 @@ func newImpl(mode int, grid bool, w, h int) (*impl, string) {
 	if mode == 1 {
 		tm = te.TextReadModeGrapheme
 	}
-	vt := te.VerifNew(fe, be, tm, grid)
-	im := &impl{be: be, fe: fe, vt: vt, term: vt.Terminal(), gmode: mode == 1, grid: grid}
+	live := &liveFrontend{rec: fe}
+	vt := te.VerifNew(live, be, tm, grid)
+	im := &impl{be: be, fe: fe, vt: vt, term: vt.Terminal(), gmode: mode == 1, grid: grid, live: live}
 	fe.term, fe.vt, fe.gmode = im.term, vt, mode == 1
 	pan := im.resize(w, h)
 	// events of construction are not part of any observation
